@@ -19,7 +19,7 @@ static void setup(void) {
 	g_c8_blist.length = c08_stub_length; g_c8_blist.elementAt = c08_stub_elementAt;
 	s_a.hashChain = &g_c8_alist; s_b.hashChain = &g_c8_blist;
 	g_c8_a_len = nondet_size(); g_c8_b_len = nondet_size();
-	g_c8.a_calls = 0; g_c8.b_calls = 0; g_c8.eq_calls = 0; g_c8.in_hash_eq_calls = 0;
+	g_c8.a_calls = 0; g_c8.b_calls = 0; g_c8.eq_calls = 0; g_c8_in_eq_calls = 0;
 	spec_rl_init(&g_c8.rl);
 	g_c8_atokp = (KSI_DataHash *)&g_c8_atok; g_c8_btokp = (KSI_DataHash *)&g_c8_btok;
 }
@@ -27,12 +27,36 @@ static void setup(void) {
 #ifdef H_rightlinks
 void harness(void) {
 	int res;
+	const KSI_CalendarHashChain *pa = nondet_bool() ? &s_a : NULL, *pb = nondet_bool() ? &s_b : NULL;
 	setup();
-	res = ksi_CalendarHashChain_verifyRightLinkCompatibility(nondet_bool() ? &s_a : NULL, nondet_bool() ? &s_b : NULL);
+	g_c8_arg_a = pa; g_c8_arg_b = pb;
+	res = ksi_CalendarHashChain_verifyRightLinkCompatibility(pa, pb);
 	if (res == KSI_OK) REACH("compatible");
 	if (res == KSI_OK && g_c8.rl.a_right > 2 && g_c8_a_len > g_c8.rl.a_right + 1) REACH("compatible, several right links, left links in between");
 	if (res == KSI_INCOMPATIBLE_HASH_CHAIN && g_c8.rl.unequal) REACH("unequal right link");
 	if (res == KSI_INCOMPATIBLE_HASH_CHAIN && !g_c8.rl.unequal && g_c8.rl.a_right > g_c8.rl.b_right) REACH("b runs out of right links");
 	if (res == KSI_INCOMPATIBLE_HASH_CHAIN && g_c8.rl.b_right > g_c8.rl.a_right) REACH("b has a surplus right link");
+}
+#endif
+
+#ifdef H_compat_top
+static struct KSI_Integer_st ia_aggr, ia_pub, ib_aggr, ib_pub;
+static char tok_in_a, tok_in_b;
+void harness(void) {
+	int res;
+	setup();
+	ia_aggr.value = nondet_ull(); ia_pub.value = nondet_ull(); ib_aggr.value = nondet_ull(); ib_pub.value = nondet_ull();
+	s_a.aggregationTime = nondet_bool() ? &ia_aggr : NULL; s_a.publicationTime = nondet_bool() ? &ia_pub : NULL;
+	s_b.aggregationTime = nondet_bool() ? &ib_aggr : NULL; s_b.publicationTime = nondet_bool() ? &ib_pub : NULL;
+	g_c8_in_a = nondet_bool() ? (KSI_DataHash *)&tok_in_a : NULL;
+	g_c8_in_b = nondet_bool() ? (KSI_DataHash *)&tok_in_b : (nondet_bool() ? g_c8_in_a : NULL);
+	s_a.inputHash = (KSI_DataHash *)g_c8_in_a; s_b.inputHash = (KSI_DataHash *)g_c8_in_b;
+	res = KSI_CalendarHashChain_verifyCompatibilityTo(nondet_bool() ? &s_a : NULL, nondet_bool() ? &s_b : NULL);
+	if (res == KSI_OK) REACH("chains compatible");
+	if (res == KSI_OK && s_a.aggregationTime == NULL && s_b.aggregationTime != NULL) REACH("compatible with the publication time standing in for a's aggregation time");
+	if (res == KSI_INCOMPATIBLE_HASH_CHAIN && g_c8_in_eq_calls == 0) REACH("aggregation times differ");
+	if (res == KSI_INCOMPATIBLE_HASH_CHAIN && g_c8_in_eq_calls == 1 && !g_c8_in_eq) REACH("input hashes differ");
+	if (res == KSI_INCOMPATIBLE_HASH_CHAIN && g_c8_in_eq) REACH("right links differ");
+	if (res == KSI_INVALID_STATE) REACH("no time in a chain");
 }
 #endif
